@@ -63,6 +63,13 @@ def replay_state(st):
             ndim = int(dreye.proj_P_for_hull(P.copy(), return_ndim=True, return_hull=False))
             if ndim != ex["affdim"]:
                 bad.append(("C18.affine-dimension", where0, ex["affdim"], ndim))
+        # compute_mean_correlation of the cloud (each point once): (2 * value)^2 is the exact squared correlation
+        if ex["corr2"][0] >= 0:
+            U = np.unique(P, axis=0)
+            mc = float(dreye.compute_mean_correlation(U.copy()))
+            want = ex["corr2"][0] / ex["corr2"][1]
+            if abs((2 * mc) ** 2 - want) > 1e-9:
+                bad.append(("C18.mean-correlation", where0, want, (2 * mc) ** 2))
         if ex["wcoef"] >= 0 and len(hist) <= 1:
             w_exact = CD[d] * ex["wcoef"]
             wbig = float(dreye.compute_mean_width(P.copy(), n=60000, seed=5, vectorized=True))
